@@ -220,6 +220,16 @@ class C03(PropBase):
                         x = hist.carry(txt, rng.choice(["str", "bytes"]))
                 steps.append({"op": "unmarshal", "t": t, "mod": rng.choice(mods), "x": x, "f12": ["member-rejected:" + d["reject"].get("exc", "ValueError")], "clean": None})
                 continue
+            if r > 0.94:
+                # a one-shot iterator as the input of a collection or mapping target: every element it yields
+                # is part of the result (a mapping target numbers them), the first one included
+                ek = rng.choice(["int", "str"])
+                elems = rng.sample([1, 2, 3, 5, 8, 13], rng.randint(1, 4)) if ek == "int" else rng.sample(["a", "b", "cc", "d", "xyz"], rng.randint(1, 4))
+                t = rng.choice([{"k": "dict", "a": [{"k": "int"}, {"k": ek}]}, {"k": "dict", "a": [{"k": "str"}, {"k": ek}]}, {"k": "list", "a": {"k": ek}},
+                                {"k": "tuplevar", "a": {"k": ek}}, {"k": "Mapping", "sp": "typing", "a": [{"k": "int"}, {"k": ek}]}, {"k": "deque", "a": {"k": ek}}])
+                steps.append({"op": "unmarshal", "t": t, "mod": rng.choice(mods), "x": {rng.choice(["$iter", "$gen"]): elems}, "f12": ["one-shot"], "clean": None,
+                              "oneshot_n": len(elems)})
+                continue
             t, pairs = rng.choice(pool)
             if "twin" in sw and rng.random() < 0.3:
                 tw = hist.type_twins(rng, t)
@@ -294,6 +304,10 @@ class C03(PropBase):
             if isinstance(out.exc, RecursionError):
                 sess.probes["recursion_error_on_deep_input"] += 1
             return  # raising is always conforming
+        if step.get("oneshot_n") is not None and hasattr(out.value, "__len__") and len(out.value) != step["oneshot_n"]:
+            sess.violation("truncated-result", i, {"t": model.tsrc(step["t"]), "where": f"$: {step['oneshot_n']} elements yielded, {len(out.value)} out",
+                                                   "f12": step.get("f12"), "got": _s(model.canon(out.value))}, sig="truncated-result:one-shot")
+            return
         trunc = _truncated(step["t"], sess.inputs.get(step.get("id", i)), out.value, sess.world)
         if trunc is not None:
             sess.violation("truncated-result", i, {"t": model.tsrc(step["t"]), "where": trunc, "f12": step.get("f12"), "got": _s(model.canon(out.value))},
